@@ -282,6 +282,25 @@ impl RefAut {
         if let Some(l) = looks.iter().find(|l| !look_supported(**l)) {
             return Err(BuildError::UnsupportedLook(format!("{l:?}")));
         }
+        // refuse to unroll astronomically large counted repetitions
+        fn estimate(h: &Hir) -> usize {
+            match h.kind() {
+                HirKind::Empty | HirKind::Look(_) => 1,
+                HirKind::Literal(l) => l.0.len(),
+                HirKind::Class(Class::Bytes(_)) => 1,
+                HirKind::Class(Class::Unicode(c)) => c.ranges().len().saturating_mul(4).max(1),
+                HirKind::Capture(c) => estimate(&c.sub),
+                HirKind::Concat(v) | HirKind::Alternation(v) => v.iter().map(estimate).fold(1usize, |a, b| a.saturating_add(b)),
+                HirKind::Repetition(r) => {
+                    let copies = (r.max.unwrap_or(r.min + 1).max(r.min) as usize).max(1);
+                    copies.saturating_mul(estimate(&r.sub).saturating_add(1))
+                }
+            }
+        }
+        let est = hirs.iter().map(estimate).fold(0usize, |a, b| a.saturating_add(b));
+        if est > 400_000 {
+            return Err(BuildError::TooLarge(est));
+        }
         let mut nfa = Nfa::default();
         for (i, h) in hirs.iter().enumerate() {
             let m = nfa.push(Inst::Match(i));
